@@ -315,8 +315,7 @@ def param_type(f, name):
     return None
 
 
-def check_find(rep, db, f, inst):
-    rule = "R-C04-find"
+def check_find(rep, db, f, inst, rule="R-C04-find"):
     ps = Engine(db).run(f)
     ex = ("p", f["params"][0]["n"])
     saw = False
